@@ -210,6 +210,22 @@ func (p *P) atomicOp(in ssa.Instruction) *atomicInfo {
 
 func constInt(v ssa.Value) (int64, bool) {
 	v = stripConv(v)
+	if b, ok := v.(*ssa.BinOp); ok {
+		// go/ssa does not fold `0 + 2`
+		x, okx := constInt(b.X)
+		y, oky := constInt(b.Y)
+		if okx && oky {
+			switch b.Op {
+			case token.ADD:
+				return x + y, true
+			case token.SUB:
+				return x - y, true
+			case token.MUL:
+				return x * y, true
+			}
+		}
+		return 0, false
+	}
 	if c, ok := v.(*ssa.Const); ok && c.Value != nil {
 		if c.Value.Kind() == constant.Int {
 			i, ok := constant.Int64Val(c.Value)
